@@ -3,6 +3,7 @@ import enum
 import re
 import warnings
 import inspect
+import itertools
 try:
     import annotationlib # py3.14+
 except ImportError:
@@ -1441,7 +1442,16 @@ def connect(m, *args, **kwargs):
         return
 
     # Collate signatures, build connections, track whether we see any input or output.
-    flattens = {handle: iter(sorted(signature.members.flatten()))
+    def flatten_members(members, *, path=()):
+        # Like `SignatureMembers.flatten()`, but the members of a signature member that has
+        # dimensions are yielded once per element, with its indices included in the path.
+        for name, member in members.items():
+            yield ((*path, name), member)
+            if member.is_signature:
+                for index in itertools.product(*(range(dim) for dim in member.dimensions)):
+                    yield from flatten_members(member.signature.members,
+                                               path=(*path, name, *index))
+    flattens = {handle: iter(sorted(flatten_members(signature.members)))
                 for handle, signature in signatures.items()}
     connections = []
     any_in, any_out = False, False
@@ -1518,7 +1528,15 @@ def connect(m, *args, **kwargs):
                 f"Cannot connect signature member(s) {sig_member_paths_as_string} with "
                 f"port member(s) {port_member_paths_as_string}")
         if sig_kind:
-            # There are no port members at this point; we're done with this path.
+            # There are no port members at this point; once it is known that the dimensions are
+            # the same (and so are the paths of the nested members), we're done with this path.
+            (first_path, first_member), *rest_of_sig_kind = sig_kind
+            for (path, member) in rest_of_sig_kind:
+                if first_member.dimensions != member.dimensions:
+                    raise ConnectionError(
+                        f"Cannot connect the member {_format_path(first_path)} with dimensions "
+                        f"{first_member.dimensions} to the member {_format_path(path)} with "
+                        f"dimensions {member.dimensions}")
             continue
         # There are only port members after this point.
         any_in = any_in or bool(in_kind)
